@@ -123,6 +123,39 @@ func C12(c *core.Ctx) {
 	cf, err := parser.ParseFile(token.NewFileSet(), "control.go", ctrl, 0)
 	c.Ob("C-src/positive-control", err == nil && len(nondetUses(cf)) == 2, token.NoPos, "the matcher must find both banned uses in the control source")
 	c.Ob("C-src/none-in-pkg", nuses == 0, token.NoPos, "%d uses", nuses)
+	// who may write to the process's standard output: only the stage that writes the results there. A diagnostic
+	// printed to stdout by a reader or worker lands at a scheduling-dependent place among the result bytes.
+	{
+		allowed := map[string]bool{"sam." + currentName(c, "pkg/sam", "writePairwiseAlignment"): true, "gfio." + currentName(c, "pkg/gfio", "OpenOut"): true}
+		var bad []string
+		var bpos token.Pos
+		nref := 0
+		for _, f := range p.funcs {
+			if f.Pkg == nil || !strings.HasPrefix(c.RelOf(f.Pkg.Pkg), "pkg/") {
+				continue
+			}
+			for _, b := range f.Blocks {
+				for _, ins := range b.Instrs {
+					u, ok := ins.(*ssa.UnOp)
+					if !ok || u.Op != token.MUL {
+						continue
+					}
+					g, ok := u.X.(*ssa.Global)
+					if !ok || g.Pkg == nil || g.Pkg.Pkg.Path() != "os" || g.Name() != "Stdout" {
+						continue
+					}
+					nref++
+					if !allowed[fnKey(topFunc(f))] {
+						bad = append(bad, c.PosStr(ins.Pos())+": "+fnKey(topFunc(f))+" uses os.Stdout; only the result writers may (diagnostics go to os.Stderr)")
+						bpos = ins.Pos()
+					}
+				}
+			}
+		}
+		sort.Strings(bad)
+		c.Ob("C-src/only-result-writers-use-stdout", len(bad) == 0, bpos, "%s", first(bad, 3))
+		c.Floor("C-src/stdout-references", nref, 2)
+	}
 	// what a pool worker emits for a record does not depend on the records it handled before
 	if tabs := extractTables(c, newEval(c), "R0"); tabs.OK {
 		c.Count("workers_checked_stateless", checkWorkersStateless(c, "C-worker", tabs))
